@@ -88,6 +88,8 @@ def run(F, rep, tier):
     callback_roles(rep, lua, mods)
     search_first_match(rep, lua, mods)
     elements_are_values(rep, lua)
+    values_compared_structurally(rep, lua)
+    integer_results(rep, lua)
     aliases(rep, mods)
     key_norm(rep, lua)
     key_injective(rep, lua)
@@ -290,6 +292,46 @@ def elements_are_values(rep, lua, rule="VALUE-SEM"):
                        "l[0] as it was" % (fname, nm, "the loop variable of pairs()" if how == "loop" else "`%s`" % luaparse.show(src)),
                        "sylt-compiler/src/preamble.lua:%s" % st.get("line"))
     rep.floor(rule, "indexed stores of library functions (into the given container or a local table)", n, 6)
+
+
+def values_compared_structurally(rep, lua, rule="VALUE-SEM"):
+    """Keys and elements are values: `(1, 2)` written twice is one key.  The runtime compares them with `==` (the metamethods)
+    or through their normalised form; `rawequal` / `rawget` compare tables by *identity*, which tells two equal tuples apart."""
+    bad = []
+    for fname, (kind, f) in sorted(lua.globals.items()):
+        if kind != "function":
+            continue
+        for x in luaparse.walk(f["body"]):
+            if x.get("k") == "Call" and x["f"].get("k") == "Name" and x["f"]["name"] in ("rawequal",):
+                bad.append((fname, x))
+    rep.ob(rule, "no-identity-comparison-of-values", not bad,
+           "no library function compares values by identity (rawequal)" if not bad else
+           "%s compares with `%s`: tables (tuples, lists, blobs) are then equal only when they are the same object - a key written "
+           "again (`dict.get(d, (1, 2))` after `dict.update(d, (1, 2), ..)`) is not found" % (bad[0][0], luaparse.show(bad[0][1])),
+           "sylt-compiler/src/preamble.lua:%s" % (bad[0][1].get("line") if bad else "-"))
+
+
+def integer_results(rep, lua, rule="NUM-REP"):
+    """`floor` answers an *integer*: its result is printed, and used as a dict / set key (keys are normalised with tostring), as
+    the int it is.  On the Lua the tests target (integer and float subtypes) only math.floor gives the integer subtype - `x // 1`
+    of a float is the float `2.0`, another key than `2`."""
+    g = lua.globals.get("floor")
+    ok = False
+    how = "not defined"
+    if g:
+        kind, e = g
+        if kind == "alias":
+            how = luaparse.show(e)
+            ok = how == "math.floor"
+        else:
+            rets = [x for x in luaparse.walk(e["body"]) if x.get("k") == "Return"]
+            how = "; ".join(luaparse.show(r_["es"][0]) if r_["es"] else "nothing" for r_ in rets)
+            ok = bool(rets) and all(r_["es"] and r_["es"][0].get("k") == "Call" and luaparse.show(r_["es"][0]["f"]) == "math.floor" for r_ in rets)
+    rep.ob(rule, "floor|integer-subtype", ok,
+           "floor is math.floor: the result has the integer subtype" if ok else
+           "floor is defined as `%s`: for a float argument the result is a float (`2.0`), which prints as \"2.0\" and is a different "
+           "dict / set key than the int 2 (`set.contains(set.from_list' [1, 2, 3], floor(2.5))` is false)" % how,
+           "sylt-compiler/src/preamble.lua")
 
 
 def search_first_match(rep, lua, mods, rule="SEARCH"):
@@ -704,9 +746,14 @@ def maybe_shape(F, rep, lua):
     import luatpl
     T = luatpl.LuaTemplates(F)
     s_nil, s_var = luatpl.summary(T, "Nil"), luatpl.summary(T, "Variant")
-    rep.ob("MAYBE-SHAPE", "compiler|Nil", luatpl.render(s_nil["value"]) == "__NIL", "the compiler writes nil payloads as __NIL")
-    rep.ob("MAYBE-SHAPE", "compiler|Variant", luatpl.render(s_var["value"]) == '__VARIANT{ "{raw:1}", {expand:2} }',
-           "the compiler writes variants as __VARIANT{ \"Tag\", payload }")
+    t_nil = luatpl.render(s_nil["value"]) if s_nil.get("value") is not None else None
+    t_var = luatpl.render(s_var["value"]) if s_var.get("value") is not None else None
+    rep.ob("MAYBE-SHAPE", "compiler|Nil", t_nil == "__NIL", "the compiler writes nil payloads as __NIL (`%s`)" % t_nil)
+    rep.ob("MAYBE-SHAPE", "compiler|Variant", t_var == '__VARIANT{ "{raw:1}", {expand:2} }' and not [g_ for g_ in T.guarded.get("Variant", [])],
+           "the compiler writes variants as __VARIANT{ \"Tag\", payload }" if t_var == '__VARIANT{ "{raw:1}", {expand:2} }' and not T.guarded.get("Variant") else
+           "the compiler does not write every variant as __VARIANT{ \"Tag\", payload } (%s): the library builds Maybe.None as "
+           "__VARIANT({\"None\", __NIL}), and __VARIANT_META.__eq compares tag *and* payload - a None from list.get is then not == to a "
+           "None written in the program" % (t_var if t_var is not None else "the arm writes different texts for different variants"))
     # variant equality compares tag and payload
     g = lua.ast
     eq = None
